@@ -75,6 +75,7 @@ def nl_cases(draw, tier="quick"):
     c = draw(lg_cases(tier))
     c["nonlinear"] = True
     c["fd_zero_start"] = draw(st.sampled_from([False, False, True]))
+    c["far_start"] = draw(st.sampled_from([False, False, True]))
     c["scale_pow"] = 0
     c["vague_pow"] = 0
     if c["backing"] in ("view", "roll"):
@@ -344,6 +345,12 @@ def run_nonlinear(c, rec):
         refuses(lambda: BP.posterior.enable_FD())
         refused, xm = refuses(lambda: BP.MAP(disp=False, x0=x0z))
         rec.count("fd_zero_start")
+    elif c.get("far_start"):
+        # a start vector far from the data (log-density of order -1e5 there): where the optimiser stops may not depend on the
+        # value of the log-density at the start
+        xfar = 40.0 * (1.0 + np.abs(A(c["x0"])))
+        refused, xm = refuses(lambda: BP.MAP(disp=False, x0=xfar))
+        rec.count("far_start")
     else:
         refused, xm = refuses(lambda: BP.MAP(disp=False))
     if refused:
